@@ -190,7 +190,7 @@ theorem emHandle_body' (st : Bool) (d : Char) (W : Str) (hd : d = '*' ∨ d = '_
     | false =>
       have := emHandle_star_em A W Z hne hW
       simp only [emSrc, EmSeg.delim, emPatterns, if_true, Bool.false_eq_true, if_false, List.replicate_one,
-        List.singleton_append, List.append_assoc, List.cons_append, List.nil_append, List.length_cons,
+        List.append_assoc, List.cons_append, List.nil_append, List.length_cons,
         List.length_append, List.length_nil] at this ⊢
       rw [this]; congr 3; omega
     | true =>
@@ -206,7 +206,7 @@ theorem emHandle_body' (st : Bool) (d : Char) (W : Str) (hd : d = '*' ∨ d = '_
       have := emHandle_under_em A W Z hne hW hb1 hb2
       simp only [emSrc, EmSeg.delim, emPatterns, show ¬ ('_' = '*') by decide, if_false, Bool.false_eq_true,
         List.replicate_one,
-        List.singleton_append, List.append_assoc, List.cons_append, List.nil_append, List.length_cons,
+        List.append_assoc, List.cons_append, List.nil_append, List.length_cons,
         List.length_append, List.length_nil] at this ⊢
       rw [this]; congr 3; omega
     | true =>
@@ -748,7 +748,7 @@ theorem star_pass2 (cfg : Inline.Cfg) (f : Nat) (hs : EscSup cfg.esc) (h1 : '*' 
             L + (K2.em st' '_' β).stars := by
           simp only [List.length_append, hc1, hL, K2.stars, show ¬ ('_' = '*') by decide, if_false]
         simp only [hlen2] at this
-        simp only [stage2L, item2_em, hcl1, hcl2, if_false, if_true, nodesS, itS, hk, hm'',
+        simp only [stage2L, item2_em, hcl1, hcl2, if_false, nodesS, itS, hk, hm'',
           show ¬ ('_' = '*') by decide, List.append_assoc]
         rw [hZ', show g + (count1 1 β.segs + itS r) =
           (g + itS r) + (nodes1 1 cfg.esc (m + escCount cfg.esc β.u0) n0 β.segs).length by rw [hc1]; omega]
@@ -803,7 +803,7 @@ theorem isW_head_next2 (esc : List Char) (t : Str) (m m' n0 n1 n2 : Nat) (r : Li
       have hs : s'.k.cls ≠ 2 := h
       have hlt : s'.k.cls < 2 := by have := s'.k.cls_lt3; omega
       obtain ⟨n, hn⟩ := item2_ph esc 2 m' n0 n1 n2 s'.k hlt
-      simp only [resid, List.nil_append, stage2L, hn, List.append_assoc]
+      simp only [resid, List.nil_append, stage2L, hn]
       rw [head_placeholder]; decide
 
 theorem noTriple_stage2L {esc : List Char} (hs : EscSup esc) (h1 : '*' ∈ esc) (h2 : '_' ∈ esc) (segs : List Seg2) :
@@ -957,7 +957,7 @@ theorem under_pass2 (cfg : Inline.Cfg) (f : Nat) (hs : EscSup cfg.esc) (h1 : '*'
         rw [hdata, hiLoop_step _ _ _ 15 0 st (by omega) _ _ _ _ hstep]
         simp only [if_true]
         rw [← hZ']
-        simp only [hun, List.append_assoc] at this ⊢
+        simp only [hun] at this ⊢
         exact this
 
 
@@ -2293,8 +2293,7 @@ theorem stx_not_mem_kout2 (esc : List Char) (k : K2) (hk : K2OK esc k) (hcl : k.
       (fun s hs hm => (plainCh_facts (hk.2.plain _ (Or.inr ⟨s, hs, hm⟩))).2.2.2.2 rfl)
     have hm' : Post.STX ∈ '<' :: emTagS st ++ ['>'] ++ (Ser.escCdata β.u0 ++ out1 β.segs) ++
         ('<' :: '/' :: emTagS st ++ ['>']) := hm
-    simp only [List.mem_append, List.mem_cons, List.not_mem_nil, d1, d2, d3, htag, hu, hsp, or_self, or_false,
-      false_or] at hm'
+    simp only [List.mem_append, List.mem_cons, List.not_mem_nil, d1, d2, d3, htag, hu, hsp, or_self] at hm'
 
 theorem stx_not_mem_out2 (esc : List Char) (segs : List Seg2) (hok : Segs2OK esc segs) (hcl : ∀ s ∈ segs, s.k.clean)
     (ht : ∀ s ∈ segs, Post.STX ∉ s.t) : Post.STX ∉ out2 segs := by
@@ -2470,7 +2469,7 @@ theorem rawF_flatten2_code (esc : List Char) (n : Nat) (b t : Str) (r : List Seg
 theorem rawF_flatten2_em (esc : List Char) (st : Bool) (d : Char) (β : Body1) (t : Str) (r : List Seg2) :
     rawF esc (flatten2 (⟨.em st d β, t⟩ :: r)) =
       dl st d ++ (escAll esc β.u0 ++ (rawF esc (flatten1 β.segs) ++ (dl st d ++ (escAll esc t ++ rawF esc (flatten2 r))))) := by
-  simp [flatten2, rawF, FKind.src, rawF_append, List.append_assoc]
+  simp [flatten2, rawF, FKind.src, rawF_append]
 
 /-- an item without its spelling -/
 inductive Q2
